@@ -39,12 +39,22 @@ func (t tasks) Swap(a, b int) {
 func (t tasks) Remove(task *taskInfo) tasks {
 	task.mtx.Lock()
 	defer task.mtx.Unlock()
-	if task.Index+1 > t.Size() {
+	// Index is set by the latest availbTask of any goroutine sharing this taskInfo,
+	// it may not be the position in this goroutine's list: locate the task itself
+	index := task.Index
+	for i, tk := range t {
+		if tk == task {
+			index = i
+			break
+		}
+	}
+	if index+1 > t.Size() {
 		return t
 	}
-
-	t = append(t[:task.Index], t[task.Index+1:]...)
-	return t
+	// the goroutines' lists share one backing array, never shift it in place
+	nt := make(tasks, 0, t.Size()-1)
+	nt = append(nt, t[:index]...)
+	return append(nt, t[index+1:]...)
 }
 
 func (t tasks) Sort() tasks {
